@@ -59,6 +59,10 @@ class InputGen:
             ch = chans.pop()
             in_loop = r.random() < 0.2
             (loop_decl if in_loop else setup_lines).append(f'p{i} = Potentiometer("A{ch}")')
+            if not in_loop and chans and r.random() < 0.2:
+                # the same name bound to a second potentiometer: later reads use the new pin
+                ch = chans.pop()
+                setup_lines.append(f'p{i} = Potentiometer("A{ch}")')
             pots.append({"name": f"p{i}", "ch": ch, "in_loop": in_loop})
         for i in range(r.choice([0, 1, 1, 2])):
             trig, echo = pins.pop(), pins.pop()
